@@ -1,8 +1,9 @@
 --------------------------- MODULE CacheAutoTrace ---------------------------
 (* Trace validation (code -> specification) for the auto-refresh cache (C11, C20).      *)
 (* A trace is recorded from one real execution of harness/autoreplay.go:                 *)
-(*   fs          a file-system operation the harness performed (logged under the cache   *)
-(*               lock, before the system call)                                           *)
+(*   fs, fsdone  a file-system operation of the harness: entry before and after the       *)
+(*               system call, both under the cache lock; the operation takes effect at    *)
+(*               some point in between (fsnotify's reader does not take that lock)        *)
 (*   recv        an event passed the watcher goroutine's filter (watch.prelock hook)     *)
 (*   handled     the watcher goroutine finished its critical section: snapshot of the    *)
 (*               cache state (watch.handled hook, still under the lock)                  *)
@@ -20,9 +21,11 @@ EXTENDS CacheAuto, IOUtils
 
 Trace == ndJsonDeserialize(IOEnv.TRACE)
 VARIABLES l,     \* position in the trace
+          pfs,   \* the file-system operation between its two log entries: [e, applied], or NoFs
           pend   \* goroutines that have received an event whose "recv" entry is still to come: the hook
                  \* runs after the receive, so the receive itself may be earlier than its log entry
-tvars == <<vars, l, pend>>
+tvars == <<vars, l, pfs, pend>>
+NoFs == [e |-> [a |-> "none"], applied |-> TRUE]
 
 TEv == Trace[l]
 Is(e) == l <= Len(Trace) /\ TEv.ev = e /\ l' = l + 1
@@ -45,11 +48,13 @@ TraceInit ==
   /\ Trace[1].ev = "init"
   /\ exists = [d \in D |-> d \in SeqSet(Trace[1].ex)]
   /\ cdirs = SeqSet(Trace[1].dirs)
-  /\ l = 2 /\ pend = {}
+  /\ l = 2 /\ pend = {} /\ pfs = NoFs
 
-FsStep ==
-  /\ Is("fs") /\ UNCHANGED pend
-  /\ LET e == TEv IN
+FsBegin == Is("fs") /\ pfs = NoFs /\ pfs' = [e |-> TEv, applied |-> FALSE] /\ UNCHANGED <<vars, pend>>
+FsEnd   == Is("fsdone") /\ pfs # NoFs /\ pfs.applied /\ pfs' = NoFs /\ UNCHANGED <<vars, pend>>
+FsApply ==
+  /\ pfs # NoFs /\ ~pfs.applied /\ pfs' = [pfs EXCEPT !.applied = TRUE] /\ l' = l /\ UNCHANGED pend
+  /\ LET e == pfs.e IN
      CASE e.a = "createwrite"   -> CreateWrite(e.d, e.n, e.c)
        [] e.a = "rewrite"       -> Rewrite(e.d, e.n, e.c)
        [] e.a = "renamewithin"  -> RenameWithin(e.d)
@@ -67,27 +72,27 @@ RecvStep ==
   /\ gor[TEv.w].pc = "have"
   /\ gor[TEv.w].ev.op = TEv.op /\ gor[TEv.w].ev.d = TEv.d /\ gor[TEv.w].ev.n = TEv.n
   /\ pend' = pend \ {TEv.w}
-  /\ UNCHANGED vars
+  /\ UNCHANGED <<vars, pfs>>
 
-HandledStep == Is("handled") /\ TEv.w \in Wids \ pend /\ GorHandle(TEv.w) /\ MatchNext(TEv.st) /\ UNCHANGED pend
+HandledStep == Is("handled") /\ pfs = NoFs /\ TEv.w \in Wids \ pend /\ GorHandle(TEv.w) /\ MatchNext(TEv.st) /\ UNCHANGED <<pend, pfs>>
 
 QueryOps == {"ListDevices", "GetDevice", "InjectDevices", "ListVendors", "ListClasses", "GetVendorSpecs", "Refresh"}
 OpStep ==
-  /\ Is("op") /\ Match(TEv.st) /\ UNCHANGED pend
+  /\ Is("op") /\ pfs = NoFs /\ Match(TEv.st) /\ UNCHANGED <<pend, pfs>>
   /\ IF TEv.name \in QueryOps THEN Query ELSE UNCHANGED vars
 
-ConfiguredStep == Is("configured") /\ Configure(SeqSet(TEv.dirs), TEv.auto) /\ MatchNext(TEv.st) /\ UNCHANGED pend
+ConfiguredStep == Is("configured") /\ pfs = NoFs /\ Configure(SeqSet(TEv.dirs), TEv.auto) /\ MatchNext(TEv.st) /\ UNCHANGED <<pend, pfs>>
 
 \* what the hooks cannot see (or see late)
 Silent ==
-  /\ l' = l
+  /\ l' = l /\ UNCHANGED pfs
   /\ \E w \in Wids : \/ ReaderRead(w) /\ UNCHANGED pend
                      \/ ReaderFetch(w) /\ UNCHANGED pend
                      \/ (infl[w] # NoEv /\ ~Relevant(infl[w]) /\ GorRecv(w) /\ UNCHANGED pend)
                      \/ (infl[w] # NoEv /\ Relevant(infl[w]) /\ GorRecv(w) /\ pend' = pend \cup {w})
                      \/ GorExit(w) /\ UNCHANGED pend
 
-TraceNext == FsStep \/ RecvStep \/ HandledStep \/ OpStep \/ ConfiguredStep \/ Silent
+TraceNext == FsBegin \/ FsApply \/ FsEnd \/ RecvStep \/ HandledStep \/ OpStep \/ ConfiguredStep \/ Silent
 TraceSpec == TraceInit /\ [][TraceNext]_tvars
 
 \* violated <=> some behaviour consumed the whole trace <=> the trace is accepted
